@@ -11,7 +11,7 @@ CASES_HEADER = "Require Import Nib.C19.Sites Nib.C19.Model Nib.C19.Spec Nib.C19.
 CASE_TYPE = "case"
 MISMATCH_FN = "mismatch current_sites"
 VIOLATES_FN = "violates"
-RULE = ("cases = 1-3 consecutive blocks of 1-7 ops (eth tx with 0-4 logs / revert / ante failure / msg-server failure, "
+RULE = ("cases = 1-3 consecutive blocks of 1-7 ops (eth tx with 0-4 logs / two-message eth tx / revert / ante failure / msg-server failure, "
         "MsgCreateFunToken, MsgConvertCoinToEvm for coin-born and ERC20-born FunTokens, FunToken.sendToBank precompile calls whose logs include mirrored ABCI events) delivered through BeginBlock/DeliverTx/EndBlock/Commit; "
         "non-trivial = some block holds a FunToken op that emitted logs AND an Ethereum tx with logs after another "
         "log-emitting op (the shape in which indices can collide); distinct = distinct input")
@@ -44,11 +44,28 @@ def _nat_list(xs):
     return "[" + "; ".join(str(x) for x in xs) + "]"
 
 
+def _split(ops, obs):
+    """A two-message Ethereum tx is two consecutive Eth ops of the model; its observation is split accordingly."""
+    for op, ob in zip(ops, obs):
+        if op["kind"] != "eth2":
+            yield op, ob
+            continue
+        ok = ob["code"] == 0
+        fail = "" if ok else "gas"
+        o1 = {"kind": "eth", "k": op["k"], "revert": False, "fail": fail, "sender": op["sender"]}
+        o2 = {"kind": "eth", "k": op["k2"], "revert": op["revert"], "fail": fail, "sender": op["sender"]}
+        n1 = op["k"] if ok else 0
+        b1 = {"code": ob["code"], "txidx": ob["txidx"][:1], "logs": ob["logs"][:n1]}
+        b2 = {"code": ob["code"], "txidx": ob["txidx"][1:], "logs": ob["logs"][n1:]}
+        yield o1, b1
+        yield o2, b2
+
+
 def to_coq_case(rec):
     blocks = []
     for ops, bo in zip(rec["input"], rec["obs"]):
         items = []
-        for op, ob in zip(ops, bo["ops"]):
+        for op, ob in _split(ops, bo["ops"]):
             k = op["k"] if op["kind"] == "eth" else len(ob["logs"])
             o = "{| o_kind := %s; o_out := %s; o_k := %d |}" % (_kind(op, ob), _out(op, ob), k)
             e = "{| e_ok := %s; e_txidx := %s; e_logs := [%s] |}" % (
@@ -64,7 +81,7 @@ def nontrivial(rec):
         seen_logs = False
         ft_with_logs = False
         eth_after = False
-        for op, ob in zip(ops, bo["ops"]):
+        for op, ob in _split(ops, bo["ops"]):
             n = len(ob["logs"])
             if op["kind"] not in ("eth", "s2b") and n > 0:
                 ft_with_logs = True
